@@ -92,3 +92,16 @@ Definition chars (k n : Z) : bytes :=
   gen_bytes (fun i => 33 + (k * 31 + i * 7) mod 94) 0 (Z.to_nat n).
 Definition payload (k n : Z) : bytes :=
   gen_bytes (fun i => (k * 31 + i * 7 + 1) mod 251) 0 (Z.to_nat n).
+
+(* argument strings of every content (C13):
+   cstr k n  a C string body (no NUL): k < 1000 printable ASCII (= chars k n); 1000 <= k < 2000 the bytes 1..255
+             in turn starting anywhere (long runs >= 0x80: not valid UTF-8); k >= 2000 lower-case ASCII with a
+             Latin-1 0xE9 as last byte and, from 3 bytes on, a stray UTF-8 continuation byte 0x80 in the middle
+   blob k n  arbitrary bytes: k < 1000 = payload k n (0..250); otherwise all of 0..255 in turn *)
+Definition cstr (k n : Z) : bytes :=
+  if k <? 1000 then chars k n
+  else if k <? 2000 then gen_bytes (fun i => 1 + (k * 31 + i * 7) mod 255) 0 (Z.to_nat n)
+  else gen_bytes (fun i => if i =? n - 1 then 233 else if (i =? n / 2) && (3 <=? n) then 128 else 97 + (k + i) mod 26)
+                 0 (Z.to_nat n).
+Definition blob (k n : Z) : bytes :=
+  if k <? 1000 then payload k n else gen_bytes (fun i => (k * 31 + i * 7) mod 256) 0 (Z.to_nat n).
